@@ -301,7 +301,6 @@ Record request := {
 
 Inductive sdec :=
 | SDOk (r : request)
-| SDDirty (r : request)                      (* returned WITHOUT error although decoder.Error is set (see service_decode_items) *)
 | SDNoMethod (h : headers) (name : bytes)    (* errors.New("Can't find this method " + name + "().") *)
 | SDDecodeError                             (* decoder.Error != nil *)
 | SDInvalid                                 (* InvalidRequestError / unparsable bytes *)
@@ -359,25 +358,18 @@ Definition service_decode_call (o : sopts) (svc : registry) (h : headers) (tr0 :
   | _ => (SDInvalid, tr0)
   end.
 
-(* does decodeArguments reach its `return args, decoder.Error` (an argument list follows the name)? *)
-Definition has_arg_list (rest : list item) : bool :=
-  match rest with
-  | ITag _ :: IVal _ :: IVal (WList _) :: _ => true
-  | _ => false
-  end.
-
 (* serviceCodec.Decode on the parsed request; returns the reader trace too.
    A failure while decoding the header map only sets the sticky decoder.Error and decoding goes on with
-   whatever was filled in (modelled as no headers).  decoder.Error is looked at in exactly one place, the
-   last line of decodeArguments; when the call has no argument list decodeArguments returns (nil, nil)
-   before that, and Decode reports success. *)
+   whatever was filled in (modelled as no headers); decodeArguments returns decoder.Error on both of its
+   paths (with and without an argument list), so the failure is reported unless the method lookup fails first
+   (that error wins) or the request is the bare end tag. *)
 Definition service_decode_items (o : sopts) (svc : registry) (m : list item) : sdec * list dop :=
   let '(hres, rest, tr0) := read_headers (s_dec o) m in
   match hres with
   | Some h => service_decode_call o svc h tr0 rest
   | None =>
       match service_decode_call o svc [] tr0 rest with
-      | (SDOk r, tr) => if has_arg_list rest then (SDDecodeError, tr) else (SDDirty r, tr)
+      | (SDOk r, tr) => (SDDecodeError, tr)
       | other => other
       end
   end.
@@ -615,25 +607,20 @@ Definition jclient_encode (counter : Z) (name : bytes) (args : list gval) (h : h
 
 Inductive jsdec :=
 | JSOk (id : Z) (r : request)
-| JSErr (id : option Z) (e : jerrv)
-| JSPanic.                              (* nil pointer dereference inside Decode (reflect2.Type2(nil).New()) *)
+| JSErr (id : option Z) (e : jerrv).
 
-(* each parameter: data := Marshal(req.Params[i]); t2 := reflect2.Type2(t); a := t2.New(); Unmarshal(data, a) *)
-Fixpoint jconv_args (ts : list pty) (vs : list gval) : option (option (list gval)) :=
-  (* None = panic, Some None = Unmarshal error, Some (Some l) = ok *)
+(* each parameter: data := Marshal(req.Params[i]); t2 := reflect2.Type2(t); a := t2.New(); Unmarshal(data, a);
+   an argument beyond the parameters (paramTypes[i] == nil) keeps its generic JSON value.  None = Unmarshal error *)
+Fixpoint jconv_args (ts : list pty) (vs : list gval) : option (list gval) :=
   match ts, vs with
-  | [], _ => Some (Some [])
-  | TSurplus :: _, _ => None          (* a surplus argument: paramTypes[i] == nil, Type2(nil) is nil, nil.New() panics *)
+  | TSurplus :: tr, v :: vr =>
+      match jconv_args tr vr with Some l => Some (v :: l) | None => None end
   | t :: tr, v :: vr =>
       match jconv t v with
-      | None => Some None
-      | Some v' =>
-          match jconv_args tr vr with
-          | Some (Some l) => Some (Some (v' :: l))
-          | other => other
-          end
+      | None => None
+      | Some v' => match jconv_args tr vr with Some l => Some (v' :: l) | None => None end
       end
-  | _ :: _, [] => None                (* req.Params[i] out of range: cannot happen, count = len(req.Params) *)
+  | _, _ => Some []               (* count = len(req.Params): the two lists have the same length *)
   end.
 
 (* ServiceCodec.Decode for a request starting with '{' *)
@@ -654,9 +641,8 @@ Definition jservice_decode (svc : registry) (req : bytes) : jsdec :=
                 JSOk id {| rq_name := name; rq_headers := h; rq_method := mt; rq_args := params |}
               else
                 match jconv_args (param_types mt (length params)) params with
-                | None => JSPanic
-                | Some None => JSErr (Some id) (JProto code_invalid_params msg_invalid_params)
-                | Some (Some args) =>
+                | None => JSErr (Some id) (JProto code_invalid_params msg_invalid_params)
+                | Some args =>
                     JSOk id {| rq_name := name; rq_headers := h; rq_method := mt; rq_args := args |}
                 end
           end
@@ -691,24 +677,17 @@ Inductive jcdec :=
 | JCRes (id : Z) (h : headers) (vs : list gval)
 | JCErr (id : Z) (h : headers) (e : jerrv)
 | JCDecodeError
-| JCPanic.                              (* failed type assertion / index out of range in the multi-result branch *)
+| JCPanic.                              (* failed type assertion in the multi-result branch *)
 
-Fixpoint jconv_results (ts : list pty) (vs : list gval) : option (option (list gval)) :=
-  match vs with
-  | [] => Some (Some [])
-  | v :: vr =>
-      match ts with
-      | [] => None                      (* context.ReturnType[i]: index out of range *)
-      | t :: tr =>
-          match jconv t v with
-          | None => Some None
-          | Some v' =>
-              match jconv_results tr vr with
-              | Some (Some l) => Some (Some (v' :: l))
-              | other => other
-              end
-          end
+(* for i, r := range res { if i >= n { break }; ... Unmarshal into ReturnType[i] }.  None = Unmarshal error *)
+Fixpoint jconv_results (ts : list pty) (vs : list gval) : option (list gval) :=
+  match ts, vs with
+  | t :: tr, v :: vr =>
+      match jconv t v with
+      | None => None
+      | Some v' => match jconv_results tr vr with Some l => Some (v' :: l) | None => None end
       end
+  | _, _ => Some []
   end.
 
 (* ClientCodec.Decode *)
@@ -725,8 +704,8 @@ Definition jclient_decode (rts : list pty) (resp : bytes) : jcdec :=
             | [] => Some (Some [])
             | [t0] => match jconv t0 v with Some v' => Some (Some [v']) | None => Some None end
             | _ => match v with
-                   | GSlice vs => jconv_results rts vs
-                   | _ => None          (* resp.Result.([]interface{}) *)
+                   | GSlice vs => Some (jconv_results rts vs)
+                   | _ => None          (* resp.Result.([]interface{}): failed type assertion *)
                    end
             end
         end in
